@@ -28,10 +28,10 @@ def process_level(res, tier):
     exe = pl.build.build_bin("plain")
     wd = pl.workdir("c15")
     cases = []
-    for n in ([32, 48] if tier == "thorough" else [32]):
-        for sx, sy in ([(0, 0), (2, -1), (-3, 2)] if tier == "thorough" else [(0, 0), (2, -1)]):
+    for n in ([32, 48] if vlib.wide(tier) else [32]):
+        for sx, sy in ([(0, 0), (2, -1), (-3, 2)] if vlib.wide(tier) else [(0, 0), (2, -1)]):
             for si, (q0, p0) in enumerate([(1.0, 0.0), (-0.6, 0.9)]):
-                for it in ((2, 3, 4) if tier == "thorough" else (4,)):
+                for it in ((2, 3, 4) if vlib.wide(tier) else (4,)):
                     cases.append((n, sx, sy, si, q0, p0, it, 0, 0))
             cases.append((n, sx, sy, 0, 0.8, -0.5, 4, 3, 0))
             cases.append((n, sx, sy, 1, -0.6, 0.9, 4, 0, 1))    # time-dependent RF kick (phase modulation): particle and charge must get the same step's kick    # with damping/diffusion and the stochastic tracking model: coordinates on the grid
